@@ -1,12 +1,202 @@
 /- Driver operations of property C20 (ops are named "c20.<name>"). Core + Lean.Data.Json only. -/
 import Reamber.Util.Json
+import Reamber.Model.Pattern
+import Reamber.Spec.Pattern
 
 open Lean Reamber.J
 
 namespace Reamber.C20
 
-def handle (op : String) (_j : Json) : Except String Json :=
+open Reamber.Pattern
+
+def tyOf? (j : Json) : Except String Ty := do
+  let s ← strOf? j
+  match Ty.all.find? (fun t => t.name == s) with
+  | some t => .ok t
+  | none => .error s!"unknown class {s}"
+
+def tyToJson (t : Ty) : Json := Json.str t.name
+
+def rowOf? (j : Json) : Except String Row :=
+  match j with
+  | Json.arr #[c, o, t] => do .ok ⟨← intOf? c, ← ratOf? o, ← tyOf? t⟩
+  | _ => .error s!"row expected [col, offset, type]: {j}"
+
+def rowToJson (r : Row) : Json := Json.arr #[intToJson r.col, ratToJson r.off, tyToJson r.ty]
+
+def rowsOf? := arrOf? rowOf?
+def rowsToJson := listToJson rowToJson
+def groupsOf? := arrOf? rowsOf?
+def groupsToJson := listToJson rowsToJson
+def intRowsOf? := arrOf? (arrOf? intOf?)
+def intRowsToJson := listToJson (listToJson intToJson)
+def tyRowsOf? := arrOf? (arrOf? tyOf?)
+def tyRowsToJson := listToJson (listToJson tyToJson)
+
+def noteListOf? (j : Json) : Except String NoteList := do
+  let ty ← tyOf? (← field j "ty")
+  let items ← arrOf? (fun it => match it with
+    | Json.arr #[c, o, l] => do .ok ((← intOf? c), (← ratOf? o), (← ratOf? l))
+    | _ => .error s!"item expected [col, offset, length]: {it}") (← field j "items")
+  .ok ⟨ty, items⟩
+
+def resToJson {α} (f : α → Json) : Except Err α → Json
+  | .ok v => okJson (f v)
+  | .error e => errJson e.toString
+
+def optField {α} (f : Json → Except String α) (j : Json) (k : String) : Except String (Option α) :=
+  optOf? f (fieldD j k Json.null)
+
+/-- filter descriptions on the wire: `{"ar": rows, "keys": k, "invert": b}` -/
+def comboFilterOf? (j : Json) : Except String ComboFilter := do
+  .ok ⟨← intRowsOf? (← field j "ar"), ← getInt j "keys", ← getBool j "invert"⟩
+def chordFilterOf? (j : Json) : Except String ChordFilter := do
+  .ok ⟨← intRowsOf? (← field j "ar"), ← getBool j "invert"⟩
+def typeFilterOf? (j : Json) : Except String TypeFilter := do
+  .ok ⟨← tyRowsOf? (← field j "ar"), ← getBool j "invert"⟩
+
+structure FilterSet where
+  chord : Option ChordFilter
+  combo : Option ComboFilter
+  type : Option TypeFilter
+
+def filterSetOf? (j : Json) : Except String FilterSet := do
+  .ok ⟨← optField chordFilterOf? j "chord", ← optField comboFilterOf? j "combo", ← optField typeFilterOf? j "type"⟩
+
+/-- the model's filter callables (hash-based column filter, as the code) -/
+def FilterSet.model (fs : FilterSet) : Filters :=
+  { chord := fs.chord.map (fun f => f.filter), combo := fs.combo.map (fun f => f.filter),
+    type := fs.type.map (fun f => f.filter) }
+
+/-- the specification's reading of the same filters: membership in their row sets -/
+def FilterSet.spec (fs : FilterSet) : Filters :=
+  memberFilters (fs.chord.map (fun f => (f.ar, f.invert))) (fs.combo.map (fun f => (f.ar, f.invert)))
+    (fs.type.map (fun f => (f.ar, f.invert)))
+
+/-- hypotheses of the combination theorems: every filter row has the combination's size, every column seen by
+the column filter (filter rows and notes) is a column of a `keys`-key map -/
+def FilterSet.dom (fs : FilterSet) (gs : List (List Row)) (size : Nat) : Bool :=
+  (match fs.chord with | none => true | some f => f.ar.all (fun r => r.length == size))
+  && (match fs.type with | none => true | some f => f.ar.all (fun r => r.length == size))
+  && (match fs.combo with
+      | none => true
+      | some f => f.ar.all (fun r => r.length == size && inRange f.keys r)
+                  && gs.all (fun g => inRange f.keys (g.map (·.col))))
+
+def handle (op : String) (j : Json) : Except String Json := do
   match op with
+  | "c20.pattern" =>
+    let rows ← getArr rowOf? j "rows"
+    .ok (okJson (rowsToJson (mkPattern rows)))
+  | "c20.pattern_spec" =>
+    let rows ← getArr rowOf? j "rows"
+    let df ← getArr rowOf? j "df"
+    .ok (okJson (obj [("perm", Json.bool (df.isPerm rows)), ("sorted", Json.bool (sortedOffB df)),
+                      ("all", Json.bool (patternSpec rows df))]))
+  | "c20.from_nl" =>
+    let nls ← getArr noteListOf? j "nls"
+    let tails ← getBool j "tails"
+    .ok (okJson (rowsToJson (fromNoteLists nls tails)))
+  | "c20.from_nl_spec" =>
+    let nls ← getArr noteListOf? j "nls"
+    let tails ← getBool j "tails"
+    let df ← getArr rowOf? j "df"
+    .ok (okJson (Json.bool (patternSpec (expectedRows nls tails) df)))
+  | "c20.group" =>
+    let rows ← getArr rowOf? j "rows"
+    let v ← getRat j "v"
+    let h ← optField intOf? j "h"
+    let aj ← getBool j "aj"
+    .ok (resToJson groupsToJson (group rows v h aj))
+  | "c20.group_spec" =>
+    let rows ← getArr rowOf? j "rows"
+    let v ← getRat j "v"
+    let h ← optField intOf? j "h"
+    let aj ← getBool j "aj"
+    let gs ← getArr rowsOf? j "groups"
+    .ok (okJson (obj [("partition", Json.bool (partitionOk rows gs)),
+                      ("vwindow", Json.bool (gs.all (vWindowOk v))),
+                      ("hwindow", Json.bool (gs.all (hWindowOk h))),
+                      ("norepeat", Json.bool (gs.all (noRepeatOk aj))),
+                      ("all", Json.bool (groupSpec rows v h aj gs))]))
+  | "c20.create_combo" =>
+    let combos ← getArr (arrOf? intOf?) j "rows"
+    let keys ← getInt j "keys"
+    let opts ← getNat j "opts"
+    .ok (okJson (intRowsToJson (comboCreateAr combos keys opts)))
+  | "c20.create_combo_spec" =>
+    let combos ← getArr (arrOf? intOf?) j "rows"
+    let keys ← getInt j "keys"
+    let opts ← getNat j "opts"
+    let rep ← getArr (arrOf? intOf?) j "reported"
+    .ok (okJson (Json.bool (rowSetSpec (comboSpecMem combos keys opts) (comboCreateAr combos keys opts) rep)))
+  | "c20.create_chord" =>
+    let sizes ← getArr (arrOf? intOf?) j "rows"
+    let keys ← getInt j "keys"
+    let opts ← getNat j "opts"
+    .ok (okJson (intRowsToJson (chordCreateAr sizes keys opts)))
+  | "c20.create_chord_spec" =>
+    let sizes ← getArr (arrOf? intOf?) j "rows"
+    let keys ← getInt j "keys"
+    let opts ← getNat j "opts"
+    let rep ← getArr (arrOf? intOf?) j "reported"
+    .ok (okJson (Json.bool (rowSetSpec (chordSpecMem sizes keys opts) (chordCreateAr sizes keys opts) rep)))
+  | "c20.create_type" =>
+    let types ← getArr (arrOf? tyOf?) j "rows"
+    let opts ← getNat j "opts"
+    .ok (okJson (tyRowsToJson (typeCreateAr types opts)))
+  | "c20.create_type_spec" =>
+    let types ← getArr (arrOf? tyOf?) j "rows"
+    let opts ← getNat j "opts"
+    let rep ← getArr (arrOf? tyOf?) j "reported"
+    .ok (okJson (Json.bool (rowSetSpec (typeSpecMem types opts) (typeCreateAr types opts) rep)))
+  | "c20.filter_combo" =>
+    let f ← comboFilterOf? j
+    let data ← getArr (arrOf? intOf?) j "data"
+    .ok (okJson (obj [("model", listToJson Json.bool (data.map f.filter)),
+                      ("spec", listToJson Json.bool (data.map (comboMember f.ar f.invert))),
+                      ("dom", Json.bool (f.ar.all (inRange f.keys) && data.all (inRange f.keys)))]))
+  | "c20.filter_chord" =>
+    let f ← chordFilterOf? j
+    let data ← getArr (arrOf? intOf?) j "data"
+    .ok (okJson (obj [("model", listToJson Json.bool (data.map f.filter)),
+                      ("spec", listToJson Json.bool (data.map (chordMember f.ar f.invert))),
+                      ("dom", Json.bool true)]))
+  | "c20.filter_type" =>
+    let f ← typeFilterOf? j
+    let data ← getArr (arrOf? tyOf?) j "data"
+    .ok (okJson (obj [("model", listToJson Json.bool (data.map f.filter)),
+                      ("spec", listToJson Json.bool (data.map (typeMember f.ar f.invert))),
+                      ("dom", Json.bool true)]))
+  | "c20.combos" =>
+    let gs ← getArr rowsOf? j "groups"
+    let size ← getNat j "size"
+    let fold ← getBool j "fold"
+    let fs ← filterSetOf? (← field j "filters")
+    let c := combinations gs size fs.model
+    .ok (okJson (listToJson groupsToJson (if fold then foldSize2 c else c)))
+  | "c20.combos_spec" =>
+    let gs ← getArr rowsOf? j "groups"
+    let size ← getNat j "size"
+    let fold ← getBool j "fold"
+    let fs ← filterSetOf? (← field j "filters")
+    let rep ← getArr rowsOf? j "reported"
+    let okB := if fold then foldedSpec gs size fs.spec rep else combosSpec gs size fs.spec rep
+    .ok (okJson (obj [("ok", Json.bool okB), ("dom", Json.bool (fs.dom gs size)),
+                      ("candidates", natToJson (candidates gs size).length)]))
+  | "c20.template_chord_stream" =>
+    let gs ← getArr rowsOf? j "groups"
+    let p ← getInt j "primary"
+    let s ← getInt j "secondary"
+    let keys ← getInt j "keys"
+    let al ← getBool j "and_lower"
+    let ij ← getBool j "include_jack"
+    .ok (okJson (listToJson groupsToJson (templateChordStream gs p s keys al ij)))
+  | "c20.template_jacks" =>
+    let gs ← getArr rowsOf? j "groups"
+    let n ← getNat j "min_len"
+    let keys ← getInt j "keys"
+    .ok (resToJson (listToJson groupsToJson) (templateJacks gs n keys))
   | _ => .error s!"unknown op {op}"
 
 end Reamber.C20
